@@ -172,6 +172,7 @@ type Engine struct {
 	curSite   string
 	numStr    map[string]*Term
 	randDraws [][]*Term
+	symIPs    map[string]Value
 }
 
 func NewEngine(p *Program, job *Job, stats *SolverStats, known map[string]map[string]bool, seed int64) (*Engine, error) {
@@ -302,6 +303,7 @@ func (e *Engine) runPath(fn *ssa.Function) (cont bool) {
 	e.cellName = map[*Value]string{}
 	e.numStr = map[string]*Term{}
 	e.randDraws = nil
+	e.symIPs = map[string]Value{}
 	e.th = nil
 	e.clock = e.st.Const(64, 1<<60)
 	if e.solver != nil {
